@@ -48,7 +48,9 @@ Comp(st, ty, v, tg) == [st |-> st, ty |-> ty, v |-> v, tg |-> tg]
 Normal(st, v) == Comp(st, "normal", v, <<>>)
 FromExpr(r) == IF r.thr = "" THEN Normal(r.st, r.v)
                ELSE IF r.thr = "throw" THEN Comp(r.st, "throw", r.v, <<>>)
-               ELSE Comp(r.st, "undecided", Undef, <<>>)
+               ELSE Comp(r.st, r.thr, Undef, <<>>)          \* "undecided" or "interrupt"
+Fatal(ty) == ty \in {"undecided", "interrupt"}          \* completions no script code can intercept
+Intr(st) == [st |-> st, v |-> Undef, thr |-> "interrupt"]
 
 -----------------------------------------------------------------------------
 (* heap *)
@@ -198,9 +200,11 @@ SeqGet(s, i) == IF i <= Len(s) THEN s[i] ELSE Undef
 
 -----------------------------------------------------------------------------
 RECURSIVE Eval(_, _, _)            \* (node, cx, st) -> [st, v, thr]
+RECURSIVE EvalBody(_, _, _)
 RECURSIVE EvalRef(_, _, _)         \* (node, cx, st) -> [st, ref, thr, v]
 RECURSIVE EvalArgs(_, _, _, _, _)  \* (nodes, i, cx, st, acc)
 RECURSIVE Exec(_, _, _, _)         \* (stmt, cx, st, labels) -> completion
+RECURSIVE ExecBody(_, _, _, _)
 RECURSIVE ExecList(_, _, _, _, _)  \* (stmts, i, cx, st, V)
 RECURSIVE Call(_, _, _, _)         \* (st, f (object value), this, args)
 RECURSIVE Construct(_, _, _)       \* (st, f, args)
@@ -252,8 +256,13 @@ ArrJoin(st, o, i, len, acc) ==
 
 -----------------------------------------------------------------------------
 (* 10.5 Declaration Binding Instantiation for function declarations *)
-BindFns(st, fds, i, env, cx, configurable) ==
-    IF i > Len(fds) THEN st
+(* Instantiating a function declaration evaluates a function expression: a polling  *)
+(* point.  An interrupt delivered there leaves the declarations made so far and      *)
+(* sets st.aborted (the callers turn it into the "interrupt" completion).             *)
+BindFns(st0, fds, i, env, cx, configurable) ==
+    IF i > Len(fds) THEN st0
+    ELSE LET st == [st0 EXCEPT !.poll = @ + 1] IN
+         IF st.poll = st.abortAt THEN [st EXCEPT !.aborted = TRUE]
     ELSE LET fd == fds[i]
              mk == MakeFunction(st, fd.params, fd.body, cx.lex, fd.name)
              st1 == IF st.E[env].k = "decl"
@@ -276,7 +285,8 @@ BindVars(st, names, i, env, configurable) ==
 RunBody(st, body, cx, isEval) ==
     LET st1 == BindFns(st, FunDecls(body), 1, cx.var, cx, isEval)
         st2 == BindVars(st1, VarsOfList(body, 1), 1, cx.var, isEval)
-    IN  ExecList(body, 1, cx, st2, Empty)
+    IN  IF st1.aborted THEN Comp([st1 EXCEPT !.aborted = FALSE], "interrupt", Undef, <<>>)
+        ELSE ExecList(body, 1, cx, st2, Empty)
 
 (* 10.6 arguments object *)
 MakeArguments(st, f, args, env, params) ==
@@ -311,11 +321,13 @@ CallUser(st, fid, thisV, args) ==
         st3 == IF S_arguments \in DOMAIN ao.st.E[e.id].b THEN st2
                ELSE CreateBinding(ao.st, e.id, S_arguments, ObjV(ao.id), FALSE, TRUE)
         st4 == BindVars(st3, VarsOfList(fn.body, 1), 1, e.id, FALSE)
-        c == IF st4.fuel <= 0 THEN Comp(st4, "undecided", Undef, <<>>)
+        c == IF st2.aborted THEN Comp([st2 EXCEPT !.aborted = FALSE, !.fuel = @ - 1], "interrupt", Undef, <<>>)
+             ELSE IF st4.fuel <= 0 THEN Comp(st4, "undecided", Undef, <<>>)
              ELSE ExecList(fn.body, 1, cx, [st4 EXCEPT !.fuel = @ - 1], Empty)
     IN  CASE c.ty = "return" -> Ok([c.st EXCEPT !.fuel = @ + 1], c.v)
           [] c.ty = "throw" -> Thr([c.st EXCEPT !.fuel = @ + 1], c.v)
           [] c.ty = "undecided" -> Und(c.st)
+          [] c.ty = "interrupt" -> Intr(c.st)
           [] OTHER -> Ok([c.st EXCEPT !.fuel = @ + 1], Undef)
 
 (* array-like to list for apply (15.3.4.3) *)
@@ -507,7 +519,15 @@ ArrLitElems(els, i, cx, st, o) ==
              ELSE LET d == OM!DefineOwn(r.st.H, o, DigitsNat(i - 1), OM!FullDataDesc(r.v, TRUE, TRUE, TRUE))
                   IN  ArrLitElems(els, i + 1, cx, SetH(r.st, d.H), o)
 
+(* Every evaluation of an expression or statement is a POLLING POINT: the place where  *)
+(* a pending interrupt is delivered (property C18).  st.poll counts them; when the     *)
+(* count reaches st.abortAt the evaluation ends with the uncatchable completion         *)
+(* "interrupt" (no catch block sees it, no finally block runs).                         *)
 Eval(node, cx, st) ==
+    LET st1 == [st EXCEPT !.poll = @ + 1]
+    IN  IF st1.poll = st.abortAt THEN Intr(st1) ELSE EvalBody(node, cx, st1)
+
+EvalBody(node, cx, st) ==
     CASE node.k = "num" -> Ok(st, NumV(node.v))
       [] node.k = "str" -> Ok(st, StrV(node.s))
       [] node.k = "bool" -> Ok(st, BoolV(node.b))
@@ -601,6 +621,7 @@ Eval(node, cx, st) ==
                 c == RunBody(st, node.prog, ecx, TRUE)
             IN  CASE c.ty = "normal" -> Ok(c.st, IF c.v = Empty THEN Undef ELSE c.v)
                   [] c.ty = "throw" -> Thr(c.st, c.v)
+                  [] c.ty = "interrupt" -> Intr(c.st)
                   [] OTHER -> Und(c.st)
       [] OTHER -> Und(st)
 
@@ -611,7 +632,7 @@ UpdV(c, V) == IF c.v = Empty THEN [c EXCEPT !.v = V] ELSE c
 ExecList(stmts, i, cx, st, V) ==                 \* 12.1 StatementList
     IF i > Len(stmts) THEN Normal(st, V)
     ELSE LET c == Exec(stmts[i], cx, st, {})
-         IN  IF c.ty = "throw" \/ c.ty = "undecided" THEN c
+         IN  IF c.ty = "throw" \/ Fatal(c.ty) THEN c
              ELSE IF c.ty # "normal" THEN UpdV(c, V)
              ELSE ExecList(stmts, i + 1, cx, c.st, IF c.v = Empty THEN V ELSE c.v)
 
@@ -627,7 +648,7 @@ LoopWhile(s, cx, st, labels, V, first) ==
              ELSE IF ~Truthy(t.v) THEN Normal(t.st, V)
              ELSE LET c == Exec(s.body, cx, [t.st EXCEPT !.fuel = @ - 1], {})
                       V2 == IF c.v # Empty THEN c.v ELSE V
-                  IN  IF c.ty \in {"throw", "undecided"} THEN c
+                  IN  IF c.ty = "throw" \/ Fatal(c.ty) THEN c
                       ELSE IF LoopBreaks(c, labels) THEN Normal(c.st, V2)
                       ELSE IF ~LoopContinues(c, labels) THEN c      \* 12.6.x: "if stmt is an abrupt completion, return stmt"
                       ELSE LoopWhile(s, cx, c.st, labels, V2, FALSE)
@@ -640,7 +661,7 @@ LoopFor(s, cx, st, labels, V, dummy) ==
              ELSE IF ~Truthy(t.v) THEN Normal(t.st, V)
              ELSE LET c == Exec(s.body, cx, [t.st EXCEPT !.fuel = @ - 1], {})
                       V2 == IF c.v # Empty THEN c.v ELSE V
-                  IN  IF c.ty \in {"throw", "undecided"} THEN c
+                  IN  IF c.ty = "throw" \/ Fatal(c.ty) THEN c
                       ELSE IF LoopBreaks(c, labels) THEN Normal(c.st, V2)
                       ELSE IF ~LoopContinues(c, labels) THEN c      \* 12.6.x: "if stmt is an abrupt completion, return stmt"
                       ELSE LET u == IF s.update = <<>> THEN Ok(c.st, Undef) ELSE Eval(s.update[1], cx, c.st)
@@ -658,7 +679,7 @@ LoopForIn(s, cx, st, labels, V, o, names) ==
                   IN  IF pv.thr # "" THEN FromExpr(pv)
                       ELSE LET c == Exec(s.body, cx, [pv.st EXCEPT !.fuel = @ - 1], {})
                                V2 == IF c.v # Empty THEN c.v ELSE V
-                           IN  IF c.ty \in {"throw", "undecided"} THEN c
+                           IN  IF c.ty = "throw" \/ Fatal(c.ty) THEN c
                                ELSE IF LoopBreaks(c, labels) THEN Normal(c.st, V2)
                                ELSE IF ~LoopContinues(c, labels) THEN c      \* 12.6.x: "if stmt is an abrupt completion, return stmt"
                                ELSE LoopForIn(s, cx, c.st, labels, V2, o, Tail(names))
@@ -676,7 +697,7 @@ CaseRun(cases, i, cx, st, V, dummy) ==
     IF i > Len(cases) THEN Normal(st, V)
     ELSE LET c == ExecList(cases[i].body, 1, cx, st, Empty)
              V2 == IF c.v # Empty THEN c.v ELSE V
-         IN  IF c.ty \in {"throw", "undecided"} THEN c
+         IN  IF c.ty = "throw" \/ Fatal(c.ty) THEN c
              ELSE IF c.ty # "normal" THEN [c EXCEPT !.v = V2]
              ELSE CaseRun(cases, i + 1, cx, c.st, V2, dummy)
 
@@ -694,6 +715,10 @@ VarDecls(decls, i, cx, st) ==                    \* 12.2
                   IN  IF p.thr # "" THEN FromExpr(p) ELSE VarDecls(decls, i + 1, cx, p.st)
 
 Exec(s, cx, st, labels) ==
+    LET st1 == [st EXCEPT !.poll = @ + 1]
+    IN  IF st1.poll = st.abortAt THEN Comp(st1, "interrupt", Undef, <<>>) ELSE ExecBody(s, cx, st1, labels)
+
+ExecBody(s, cx, st, labels) ==
     CASE s.k = "empty" -> Normal(st, Empty)
       [] s.k = "fdecl" -> Normal(st, Empty)
       [] s.k = "expr" -> FromExpr(Eval(s.e, cx, st))
@@ -749,7 +774,7 @@ Exec(s, cx, st, labels) ==
                               st1 == CreateBinding(e.st, e.id, s.param, b.v, FALSE, TRUE)
                           IN  ExecList(s.handler, 1, [cx EXCEPT !.lex = e.id], st1, Empty)
                      ELSE b
-            IN  IF ~s.hasF \/ c.ty = "undecided" THEN c
+            IN  IF ~s.hasF \/ Fatal(c.ty) THEN c
                 ELSE LET f == ExecList(s.fin, 1, cx, c.st, Empty)
                      IN  IF f.ty = "normal" THEN [c EXCEPT !.st = f.st] ELSE f
       [] OTHER -> Comp(st, "undecided", Undef, <<>>)
@@ -856,7 +881,8 @@ Heap0 ==
     IN  h18
 
 State0(fuel) ==
-    [H |-> Heap0, E |-> <<[k |-> "obj", o |-> GlobalObj, withThis |-> FALSE, outer |-> 0]>>, log |-> <<>>, fuel |-> fuel]
+    [H |-> Heap0, E |-> <<[k |-> "obj", o |-> GlobalObj, withThis |-> FALSE, outer |-> 0]>>, log |-> <<>>, fuel |-> fuel,
+     poll |-> 0, abortAt |-> 0, aborted |-> FALSE]
 
 GlobalCx == [lex |-> GlobalEnv, var |-> GlobalEnv, this |-> ObjV(GlobalObj)]
 
@@ -869,6 +895,7 @@ ErrName(st, v) ==
 
 Outcome(c) ==
     CASE c.ty = "undecided" -> [und |-> TRUE]
+      [] c.ty = "interrupt" -> [und |-> FALSE, log |-> c.st.log, thr |-> <<105>>, v |-> Undef]      \* "i": unwound by an interrupt
       [] c.ty = "throw" ->
             (LET nm == ErrName(c.st, c.v)
              IN  IF nm # <<>> THEN [und |-> FALSE, log |-> c.st.log, thr |-> nm, v |-> Undef]
@@ -878,4 +905,12 @@ Outcome(c) ==
       [] OTHER -> [und |-> TRUE]      \* break/continue/return escaping a program: not generated
 
 RunProgram(body, fuel, isEval) == Outcome(RunBody(State0(fuel), body, GlobalCx, isEval))
+
+(* C18: run P with an interrupt delivered at polling point k (0 = never), then run the   *)
+(* follow-up program Q on the state the first run left behind.                            *)
+RunThen(body, k, follow, fuel) ==
+    LET c1 == RunBody([State0(fuel) EXCEPT !.abortAt = k], body, GlobalCx, FALSE)
+        st1 == [c1.st EXCEPT !.abortAt = 0, !.log = <<>>, !.fuel = fuel]
+        c2 == RunBody(st1, follow, GlobalCx, FALSE)
+    IN  [first |-> Outcome(c1), polls |-> c1.st.poll, second |-> Outcome(c2)]
 =============================================================================
